@@ -1433,6 +1433,11 @@ class DiskRefsContainer(RefsContainer):
                 if orig_ref != old_ref:
                     return False
 
+            # Drop the packed entry first: while the loose file still exists
+            # it shadows the packed one, so nobody can observe a stale packed
+            # value coming back between the two steps.
+            self._remove_packed_ref(name)
+
             # remove the reference file itself
             try:
                 found = os.path.lexists(filename)
@@ -1442,8 +1447,6 @@ class DiskRefsContainer(RefsContainer):
 
             if found:
                 os.remove(filename)
-
-            self._remove_packed_ref(name)
             self._log(
                 name,
                 old_ref,
